@@ -51,7 +51,7 @@ def run(ctx: Ctx):
         for hs, r in runs[1:]:
             def same(key):
                 return r[key] == ref[key]
-            for key in ('inputs_order', 'coupling_order', 'sample_keys', 'samples', 'history', 'state_digest', 'prediction'):
+            for key in ('component_order', 'inputs_order', 'coupling_order', 'sample_keys', 'samples', 'history', 'state_digest', 'prediction'):
                 if not same(key):
                     a, b = ref[key], r[key]
                     ctx.violate(f'C20:{key}-depends-on-hash-seed',
